@@ -115,6 +115,9 @@ def merge_on_full_hash(ctx, rid):
                     and all(flow.mentions(ac.arg(cs[0], i), lambda z: z[0] == 'field' and z[2] == 'file_hash') or flow.mentions(ac.arg(cs[0], i), lambda z: z[0] in ('upvar', 'param')) for i in (0, 1)):
                 ctx.check(True, rid, f.path, 'delegation', ac.loc(cs[0]), 'otherwise the step is decided by get_next_actions on the two records\' file hashes (in a local closure)')
                 return
-    ctx.check(len(dl) == 1 and all(flow.mentions(f.arg(dl[0], i), lambda z: z[0] == 'param' and z[1] == i + 1) and
-                                   not flow.mentions(f.arg(dl[0], i), lambda z: z[0] == 'call' and 'truncate' in sg(z[1])) for i in (0, 1)),
+    def from_param(e, i, site):
+        if flow.mentions(e, lambda z: z[0] == 'param' and z[1] == i + 1):
+            return True
+        return any(flow.mentions(se, lambda z: z[0] == 'param' and z[1] == i + 1) for (_, _, se) in f.flow.sources(e, (site, None)))
+    ctx.check(len(dl) >= 1 and all(from_param(f.arg(d_, i), i, d_) and not flow.mentions(f.arg(d_, i), lambda z: z[0] == 'call' and 'truncate' in sg(z[1])) for d_ in dl for i in (0, 1)),
               rid, f.path, 'delegation', f.loc(dl[0]) if dl else '-', 'otherwise the step is decided by get_next_actions on the two records\' file hashes')
